@@ -399,6 +399,18 @@ def _commitment_service(r, ae, other_kind, raises, Stub):
     of the other kind (N-ACTION before N-EVENT-REPORT and the reverse) on another association."""
     from pynetdicom2 import asceprovider, sopclass, dsutils
     import pydicom
+    # another dispatcher-based service of the process (an application's own) has handled the same kind
+    # of message before: each dispatcher object finds its own methods
+    class OtherService(sopclass.MessageDispatcherSCP):
+        sop_classes = ['1.2.826.0.1.3680043.17.1']
+
+        def n_action(self, asce, ctx, msg):
+            return None
+
+        def n_event_report(self, asce, ctx, msg):
+            return None
+    own_field = 0x0130 if other_kind == 'n-event-report' else 0x0100
+    OtherService()(None, None, type('Msg', (), {'command_field': own_field})())
     service = sopclass.StorageCommitment()
     if raises or r.random() < 0.5:
         return service
